@@ -147,7 +147,7 @@ def work_chunk(task):
         if ref[0] == "val":
             count("cpython_value")
             count(f"{fam}_cpython_value")
-            batchable.append((idx, c))
+            (single if c.get("solo") else batchable).append((idx, c))
         elif ref[3] and c["binding"]:
             count("cpython_binding_error")
             single.append((idx, c))
